@@ -97,6 +97,7 @@ type End struct {
 	CloseCount    int
 	MaxDatagram   int    // >0: Writes longer than this fail with EMSGSIZE (UDP sockets: 65507)
 	OnAddr        func() // one-shot hook run by the next LocalAddr call
+	werr          error  // writes fail with this error (AbortWrites)
 	wclosed       bool   // CloseWrite was called
 	closeGate     chan struct{}
 	closesParked  int
@@ -188,6 +189,13 @@ func (e *End) Write(b []byte) (n int, err error) {
 			}
 			e.mu.Unlock()
 			return 0, err
+		case e.werr != nil:
+			err := e.werr
+			if !first {
+				e.pendingWrites--
+			}
+			e.mu.Unlock()
+			return 0, &net.OpError{Op: "write", Net: "udp", Err: err}
 		}
 		if e.stallEach && first {
 			// park this write until the harness commits it (write completion is an event)
@@ -415,6 +423,9 @@ func (e *End) Abort() {
 	e.mu.Unlock()
 	close(g)
 }
+
+// AbortWrites makes every later Write by this end fail with ENETUNREACH while reads keep waiting (a socket whose route went away).
+func (e *End) AbortWrites() { e.mu.Lock(); e.werr = syscall.ENETUNREACH; e.mu.Unlock() }
 
 // Stall makes subsequent Writes by this end block until Commit.
 func (e *End) Stall() { e.mu.Lock(); e.stall = true; e.mu.Unlock() }
